@@ -100,6 +100,9 @@ def general_event(c: dict) -> dict:
     elif c.get("dtype") == "float32":
         stored = Xd.astype(np.float32)
         Xd = stored.astype(np.float64)
+    # the magnitude of the data is a presentation (the tolerance is relative): 2^-30 and 2^25, exact in binary
+    f = {1: 2.0 ** -30, 3: 2.0 ** 25}.get(c["seed"] % 5, 1.0) if c.get("dtype", "float") == "float" else 1.0
+    stored = stored * f if f != 1.0 else stored
     a = {"shape": list(shape), "auto": not any(c["ranks"]), "ranks": c["ranks"], "seq": c["seq"], "order": c["order"]}
     try:
         with quiet(), warnings.catch_warnings():
@@ -108,6 +111,8 @@ def general_event(c: dict) -> dict:
             kw0 = repr(kw)
             T = ttb.hosvd(ttb.tensor(stored), c["tol"], verbosity=c["verbosity"], dimorder=np.array(c["order"], dtype=int),
                           sequential=bool(c["seq"]), **kw)
+        if f != 1.0:
+            T = ttb.ttensor(ttb.tensor(T.core.data / f), [u.copy() for u in T.factor_matrices])
         rel = np.linalg.norm(Xd - T.full().data) / np.linalg.norm(Xd)
         ranks = [int(u.shape[1]) for u in T.factor_matrices]
         return {"op": "hosvd", "args": a, "ret": {"st": "ok", "orthonormal": orthonormal(T.factor_matrices),
@@ -131,6 +136,10 @@ def tucker_event(c: dict) -> dict:
             G = np.moveaxis(np.tensordot(np.linalg.qr(rng.rand(s_, r_))[0], G, axes=(1, k)), 0, k)
         Xd = G
     X = ttb.tensor(Xd)
+    if c.get("data") != "lowrank" and (c["seed"] + len(shape) + c["maxiters"]) % 3 == 0:
+        # measured data kept in 16 bits (every entry fits, the squares do not): the element type is a presentation
+        Xd = np.round(Xd * 250)
+        X = ttb.tensor(Xd.astype(np.int16))
     a = {"shape": list(shape), "ranks": c["ranks"], "maxiters": c["maxiters"], "order": c["order"], "init": c["init"]}
     try:
         shared = None
